@@ -130,6 +130,9 @@ def modelStep (r : Router) (line : String) : Router × String :=
   | ["default", h] => (r.defaultHandle (parseHandlerOpt h), "ok")
   | ["defaultf", h] => (r.defaultHandle (some (if h = "nil" then .nilFunc else .named h)), "ok")
   | ["mw", m] => (r.use m, "ok")
+  | ["usev", _, names] => ((names.splitOn ",").foldl (fun r m => r.use m) r, "ok")   -- Use(a, b, …): appended in order
+  | ["callerappend", _] => (r, "ok")      -- what the application does with its own slice afterwards
+  | ["callerset", _, _] => (r, "ok")      -- … does not concern the router
   | ["served", p] => modelServe r p
   | ["wire", tr, code, segs, _] => modelWire r tr code segs
   | ["serve", p] => modelServe r p
@@ -185,6 +188,8 @@ def judgeStep (st : SpecState) (line : String) : SpecState × String :=
     let ow := words obs
     match words op with
     | ["reset"] => ({}, "ok")
+    | ["usev", _, names] => ({ st with mws := st.mws ++ names.splitOn "," }, "ok")
+    | ["callerset", _, _] => (st, "ok")
     | [kind, p, h] =>
       if kind = "route" ∨ kind = "routef" then
         match decodeStr p with
@@ -225,6 +230,7 @@ def judgeStep (st : SpecState) (line : String) : SpecState × String :=
     | ["default", h] => ({ st with dflt := specH false h }, "ok")
     | ["defaultf", h] => ({ st with dflt := specH true h }, "ok")
     | ["mw", m] => ({ st with mws := st.mws ++ [m] }, "ok")
+    | ["callerappend", _] => (st, "ok")
     | ["serve", p] => (st, judgeServeLine st p ow)
     | ["wire", _, code, segs, _] =>
       match code.toNat?, decodeSegs segs, parseSeen ow with
